@@ -348,6 +348,17 @@ impl NodeExec {
                     remaining_established: rem as usize,
                 }));
             }
+            ["dialfail", p, c] => {
+                // a dial (or a denied extra connection) to peer `p` failed: nothing about the peer's established
+                // connections changes
+                let (Some(p), Some(c)) = (num(p), num(c)) else { return "bad-op".into() };
+                let err = libp2p_swarm::DialError::Aborted;
+                self.node.on_swarm_event(FromSwarm::DialFailure(libp2p_swarm::DialFailure {
+                    peer_id: Some(peer_of(p)),
+                    error: &err,
+                    connection_id: ConnectionId::new_unchecked(c as usize),
+                }));
+            }
             ["closing", p, c] => {
                 let (Some(p), Some(c)) = (num(p), num(c)) else { return "bad-op".into() };
                 VNode::client_closing(&mut self.node, peer_of(p), ConnectionId::new_unchecked(c as usize));
@@ -369,8 +380,11 @@ impl NodeExec {
                 let qid: beetswap::QueryId = unsafe { std::mem::transmute::<u64, beetswap::QueryId>(q) };
                 self.node.cancel(qid);
             }
-            ["msg", p, h, d, b, w] => {
+            ["msg", p, h, d, b, w] | ["msg", p, h, d, b, w, _] => {
                 let Some(p) = num(p) else { return "bad-op".into() };
+                // the connection the message arrived on (optional 7th token `c=<n>`; 0 when absent): what is
+                // applied must not depend on it
+                let via = toks.get(6).and_then(|t| t.strip_prefix("c=")).and_then(num).unwrap_or(0);
                 let (Some(h), Some(d), Some(b)) = (
                     h.strip_prefix("h=").and_then(list),
                     d.strip_prefix("d=").and_then(list),
@@ -399,12 +413,17 @@ impl NodeExec {
                                 let Some(k) = num(body) else { return "bad-op".into() };
                                 cid_of_key(k).to_bytes()
                             };
-                            entries.push(Entry { block, priority: 1, cancel, wantType: WantType::Have, sendDontHave: true });
+                            // the fields the serving side does not act upon vary with the position: priorities over the
+                            // whole int32 range, both want types, both settings of send-dont-have
+                            let i = entries.len();
+                            let priority = [1, 0, i32::MIN, -1, i32::MAX, 7][i % 6];
+                            let want_type = if i % 2 == 0 { WantType::Have } else { WantType::Block };
+                            entries.push(Entry { block, priority, cancel, wantType: want_type, sendDontHave: i % 3 != 1 });
                         }
                     }
                     Some(ProtoWantlist { entries, full: f == "1" })
                 };
-                VNode::incoming(&mut self.node, peer_of(p), ConnectionId::new_unchecked(0), VIncoming::from_parts(client, server));
+                VNode::incoming(&mut self.node, peer_of(p), ConnectionId::new_unchecked(via as usize), VIncoming::from_parts(client, server));
             }
             ["sending", p, src, st] => {
                 let Some(p) = num(p) else { return "bad-op".into() };
